@@ -73,6 +73,49 @@ CLAIMED = {
              "of two Managers/Connectors with unbounded in-flight queues; no per-function contract expresses it. Assumed: "
              "collaborators as boundary objects, Noise authenticity makes a decrypted KCM mean the Leader confirmed.",
         design="6/C11"),
+    "C04": dict(
+        text="Three layers on the real source: transit consumer accounting (FileConsumer.write, _writeToConsumer, connectConsumer "
+             "drain loop, connectionLost errbacks the consumer Deferred; the Deferred fires with n only when n >= expected and n is "
+             "what was written in order), receiver (_transfer_data returns only when every announced byte was written and hashed; "
+             "rename/unzip only after it returned on the same file object; the ack carries that hash; only destination+'.tmp' is "
+             "opened) and sender (_send_file succeeds only on an explicit ok whose hash, if present, is the hash of what was handed "
+             "to the pipe; hash and count cover exactly what was written). inlineCallbacks generators are verified with a "
+             "yield model: each yield returns a value satisfying the callee's deferred-result contract or raises, and every "
+             "field not declared stable is havocked.",
+        note="Assumed: Twisted resumes a generator once per fired Deferred; FileSender reads/transforms/writes chunks in order; "
+             "sha256 as an uninterpreted function (byte-exactness relies on collision resistance); C06 for the pipe; asserts are "
+             "executed (no python -O); zip content round trip and terminal escaping are library behaviour.",
+        design="6/C04"),
+    "C05": dict(
+        text="Receiver._decide_destname/_remove_existing/_ask_permission/_handle_file/_handle_directory/_write_file/_extract_file/"
+             "_write_directory are verified against a ghost filesystem: every opened/renamed/removed/extracted path is the announced "
+             "destination, destination+'.tmp' or strictly below destination+'/'; the destination is a direct child named by the "
+             "offer's basename (or the --output-file target); an existing destination without --output-file is refused; a "
+             "directory is never removed; offer fields range over the JSON sort.",
+        note="Assumed: POSIX os.path axioms (basename/abspath/join; each cross-checked, uncounted, on ~23k instances against "
+             "CPython's posixpath), filesystem consistency facts, no concurrent filesystem change; what zipfile.extract does with a "
+             "name that passed the check is the library's business; Windows paths not covered.",
+        design="6/C05"),
+    "C06": dict(
+        text="send_record (length prefix then nonce-prefixed ciphertext, nonce = big-endian counter, counter+1), _decrypt_record "
+             "(BadNonce exactly when the prefix differs from the expected counter; counter advances only then), "
+             "dataReceivedRECORDS (ghost 'consumed' stream invariant: every iteration consumes exactly 4+length bytes and hands "
+             "exactly those to decryption; remainder holds no complete frame: chunking independence), dataReceived (any exception "
+             "=> loseConnection, 'hung up', nothing surfaced afterwards), FIFO pairing of records and reads, close/connectionLost "
+             "errback every waiting read once, direction keys cross-match; frame round-trip / honest-record / out-of-order lemmas.",
+        note="Assumed: SecretBox as an ideal deterministic AEAD (INT-CTXT), HKDF a function of (key,length,info) injective in info, "
+             "transport.write appends in order, TCP is an in-order stream; Deferred re-entrancy from application callbacks is not "
+             "modelled; len(record) < 2**32-40.",
+        design="6/C06"),
+    "C07": dict(
+        text="connection_ready (receiver waits; sender says go iff no winner yet, never twice), _check_and_remove, the full "
+             "_dataReceived transition function over the string state (records only via _negotiationSuccessful, reached only "
+             "after exactly go\\n or from state go; go/nevermind only after the expected handshake matched; nevermind is written and "
+             "the connection dropped), handshakes bind key and role (lemmas), _cancel, connectionMade arms the timeout, "
+             "timeoutConnection drops, _not_forever arms the deadline, there_can_be_only_one fires once and cancels losers.",
+        note="NOT decided: that the timers fire and connect() fails BY its deadline (reactor liveness). Assumed: HKDF injective, "
+             "Deferred/callLater semantics, no synchronous re-entry from cancel().",
+        design="6/C07"),
 }
 NOT_BUILT = "check not built yet (framework under construction; see DESIGN.md section 11)"
 
